@@ -46,6 +46,29 @@ class C03(CtxCheck):
             out.append(root + [("op", 0, ("add", "Bd", True, "v:c0:Bd:0", "m")), ("op", 0, ("addf", k, fk, f"f:c0:{k}:0", "m"))])
         return out
 
+    def units(self, tier: str, seed: int) -> list:
+        from .c04race import adder_units
+
+        return super().units(tier, seed) + adder_units(tier)
+
+    def work(self, unit: dict, tier: str) -> dict:
+        if "race" in unit:
+            from .c04race import RACE
+
+            s = RACE.work(unit, tier)
+            # only the hand-out stability clause belongs to C03
+            s["violations"] = [v for v in s["violations"] if "stable" in v["keys"]]
+            s["keyhist"] = {k: n for k, n in s.get("keyhist", {}).items() if k == "stable"}
+            return s
+        return super().work(unit, tier)
+
+    def replay(self, rec: dict):  # type: ignore[no-untyped-def]
+        if "race" in rec.get("program", {}):
+            from .c04race import RACE
+
+            return RACE.replay(rec)
+        return super().replay(rec)
+
     def enabled(self, u: Universe) -> list[tuple]:
         ops: list[tuple] = []
         if len(u.models) < self.max_ctx:
